@@ -2114,3 +2114,129 @@ Proof.
   - apply dec_negate.
 Qed.
 End Decode.
+
+(* ---------- M: the spec LEB128 encoders are read back by the model readers ---------- *)
+
+Lemma lor_disjoint acc y s : acc < 2 ^ s -> N.lor acc (y * 2 ^ s) = acc + y * 2 ^ s.
+Proof.
+  intros Ha.
+  assert (Hl : N.land acc (y * 2 ^ s) = 0).
+  { apply N.bits_inj_0. intros n. rewrite N.land_spec, <- N.shiftl_mul_pow2.
+    destruct (N.lt_ge_cases n s) as [Hn|Hn].
+    - rewrite N.shiftl_spec_low by exact Hn. apply andb_false_r.
+    - rewrite <- (N.mod_small acc (2 ^ s)) by exact Ha.
+      rewrite N.mod_pow2_bits_high by exact Hn. reflexivity. }
+  rewrite (N.add_nocarry_lxor _ _ Hl). symmetry. apply N.lxor_lor. exact Hl.
+Qed.
+
+Lemma byte_facts x : x < 128 ->
+  b2n (n2b x) = x /\ has_cont x = false /\ low7 x = x /\
+  b2n (n2b (128 + x)) = 128 + x /\ has_cont (128 + x) = true /\ low7 (128 + x) = x.
+Proof.
+  intros Hx.
+  pose proof (N_sweep 128 (fun x => (b2n (n2b x) =? x) && negb (has_cont x) && (low7 x =? x) &&
+                                    (b2n (n2b (128 + x)) =? 128 + x) && has_cont (128 + x) &&
+                                    (low7 (128 + x) =? x))
+                      ltac:(vm_compute; reflexivity) x Hx) as H.
+  cbv beta in H.
+  repeat match type of H with _ && _ = true => apply andb_prop in H; let H1 := fresh "F" in destruct H as [H H1] end.
+  repeat split; try (apply N.eqb_eq; assumption); try assumption.
+  destruct (has_cont x); [discriminate|reflexivity].
+Qed.
+
+Lemma pow_split shift : shift <= 64 -> 2 ^ 64 = 2 ^ shift * 2 ^ (64 - shift).
+Proof. intros H. rewrite <- N.pow_add_r. f_equal. lia. Qed.
+
+Lemma uleb_last dbg v acc shift rest :
+  shift <= 63 -> acc < 2 ^ shift -> v < 2 ^ (64 - shift) -> v < 128 ->
+  uleb_loop dbg acc shift (n2b v :: rest) = Ok (acc + v * 2 ^ shift, rest).
+Proof.
+  intros Hs Ha Hv Hv128.
+  destruct (byte_facts v Hv128) as (B1 & B2 & B3 & _).
+  cbn [uleb_loop]. rewrite B1, B3.
+  assert (H63 : (shift =? 63) && negb (v =? 0) && negb (v =? 1) = false).
+  { destruct (N.eqb_spec shift 63) as [->|]; [|reflexivity].
+    change (2 ^ (64 - 63)) with 2 in Hv. assert (v = 0 \/ v = 1) as [-> | ->] by lia; reflexivity. }
+  rewrite H63. unfold shl64. destruct (64 <=? shift) eqn:E64; [lia|].
+  cbn [bind]. pose proof (pow_split shift ltac:(lia)) as Hpow.
+  rewrite N.shiftl_mul_pow2, wrap64_small, lor_disjoint, B2 by (auto; unfold two64; change 18446744073709551616 with (2 ^ 64); nia).
+  reflexivity.
+Qed.
+
+Lemma shift_step shift : shift mod 7 = 0 -> shift < 63 -> shift <= 56.
+Proof.
+  intros Hm H.
+  assert (shift = 7 * (shift / 7)) by (rewrite (N.div_mod shift 7) at 1 by discriminate; lia). lia.
+Qed.
+
+Lemma uleb_cont dbg v acc shift bs :
+  shift mod 7 = 0 -> shift <= 63 -> acc < 2 ^ shift -> v < 2 ^ (64 - shift) -> 128 <= v ->
+  uleb_loop dbg acc shift (n2b (128 + v mod 128) :: bs) =
+    uleb_loop dbg (acc + v mod 128 * 2 ^ shift) (shift + 7) bs /\ shift <= 56.
+Proof.
+  intros Hm Hs Ha Hv Hv128.
+  assert (Hmod : v mod 128 < 128) by (apply N.mod_lt; discriminate).
+  destruct (byte_facts (v mod 128) Hmod) as (_ & _ & _ & B4 & B5 & B6).
+  assert (Hs63 : shift <> 63) by (intros ->; change (2 ^ (64 - 63)) with 2 in Hv; lia).
+  assert (Hs56 : shift <= 56) by (apply shift_step; [exact Hm|lia]).
+  split; [|exact Hs56].
+  cbn [uleb_loop]. rewrite B4, B6.
+  destruct (shift =? 63) eqn:E63; [apply N.eqb_eq in E63; contradiction|]. cbn [andb].
+  unfold shl64. destruct (64 <=? shift) eqn:E64; [lia|]. cbn [bind].
+  pose proof (pow_split shift ltac:(lia)) as Hpow.
+  assert (H7 : 2 ^ (64 - shift) = 2 ^ (64 - shift - 7) * 128).
+  { replace (64 - shift) with ((64 - shift - 7) + 7) at 1 by lia. rewrite N.pow_add_r. reflexivity. }
+  assert (Hsmall : v mod 128 * 2 ^ shift < two64).
+  { unfold two64. change 18446744073709551616 with (2 ^ 64). nia. }
+  rewrite N.shiftl_mul_pow2, wrap64_small, lor_disjoint, B5 by auto. reflexivity.
+Qed.
+
+Lemma enc_uleb_fuel_S f v :
+  enc_uleb_fuel (S f) v = if v <? 128 then [n2b v] else n2b (128 + v mod 128) :: enc_uleb_fuel f (v / 128).
+Proof. reflexivity. Qed.
+
+Lemma uleb_loop_enc dbg : forall f v acc shift rest,
+  shift mod 7 = 0 -> shift <= 63 -> acc < 2 ^ shift -> v < 2 ^ (64 - shift) -> v < 128 ^ N.of_nat (S f) ->
+  uleb_loop dbg acc shift (enc_uleb_fuel (S f) v ++ rest) = Ok (acc + v * 2 ^ shift, rest).
+Proof.
+  induction f as [|f IH]; intros v acc shift rest Hm Hs Ha Hv Hf;
+    rewrite enc_uleb_fuel_S; destruct (v <? 128) eqn:E.
+  - cbn [app]. apply uleb_last; auto; lia.
+  - change (128 ^ N.of_nat 1) with 128 in Hf. lia.
+  - cbn [app]. apply uleb_last; auto; lia.
+  - assert (Hv128 : 128 <= v) by lia.
+    destruct (uleb_cont dbg v acc shift (enc_uleb_fuel (S f) (v / 128) ++ rest) Hm Hs Ha Hv Hv128) as (Hc & Hs56).
+    rewrite <- app_comm_cons. rewrite Hc.
+    assert (Hmod : v mod 128 < 128) by (apply N.mod_lt; discriminate).
+    assert (Hp7 : 2 ^ (shift + 7) = 2 ^ shift * 128) by (rewrite N.pow_add_r; reflexivity).
+    rewrite IH.
+    + f_equal. f_equal. rewrite Hp7. rewrite (N.div_mod v 128) at 3 by discriminate. lia.
+    + rewrite <- N.add_mod_idemp_l, Hm by discriminate. reflexivity.
+    + lia.
+    + rewrite Hp7. nia.
+    + assert (2 ^ (64 - shift) = 2 ^ (64 - (shift + 7)) * 128).
+      { replace (64 - shift) with ((64 - (shift + 7)) + 7) by lia. rewrite N.pow_add_r. reflexivity. }
+      apply N.div_lt_upper_bound; [discriminate|]. lia.
+    + rewrite (Nat2N.inj_succ (S f)), N.pow_succ_r' in Hf.
+      apply N.div_lt_upper_bound; [discriminate|]. exact Hf.
+Qed.
+
+Theorem enc_uleb_read dbg v rest : v < two64 -> read_uleb128 dbg (enc_uleb v ++ rest) = Ok (v, rest).
+Proof.
+  intros Hv. unfold enc_uleb. change 19%nat with (S 18). rewrite enc_uleb_fuel_S.
+  destruct (v <? 128) eqn:E.
+  - assert (Hv128 : v < 128) by lia. destruct (byte_facts v Hv128) as (B1 & B2 & _).
+    cbn [app read_uleb128]. rewrite B1, B2. reflexivity.
+  - assert (Hmod : v mod 128 < 128) by (apply N.mod_lt; discriminate).
+    destruct (byte_facts (v mod 128) Hmod) as (_ & _ & _ & B4 & B5 & B6).
+    cbn [app read_uleb128]. rewrite B4, B5, B6.
+    rewrite (uleb_loop_enc dbg 17).
+    + f_equal. f_equal. change (2 ^ 7) with 128. rewrite (N.div_mod v 128) at 3 by discriminate. lia.
+    + reflexivity.
+    + lia.
+    + exact Hmod.
+    + change (2 ^ (64 - 7)) with 144115188075855872. unfold two64 in Hv.
+      apply N.div_lt_upper_bound; [discriminate|]. lia.
+    + unfold two64 in Hv. apply N.div_lt_upper_bound; [discriminate|].
+      assert (18446744073709551616 < 128 * 128 ^ N.of_nat 18) by (vm_compute; reflexivity). lia.
+Qed.
